@@ -383,6 +383,7 @@ def run(report, p):
                 f.rule = rr.id
             report.rules.append(rr)
 
+    include_rules(report, p, 'c08', ['R8.2'], "every history a run touches gets exactly one new manifest: a history that the root's mapping does not know (nested three levels or deeper) is left without a generation, its files are recorded one level up")
     include_rules(report, p, 'c13', ['R13.7'], 'the <folder> part of NNNN_<folder>_<time>Z.mhl is the name of the root folder, whatever the spelling of the root (., x/., trailing separator)')
     include_rules(report, p, 'c08', ['R8.6'], 'exactly one new manifest and chain entry per touched history: the commit loop writes every history that received records or references, and skips only the others')
     include_rules(report, p, 'c16', ['R16.4'], 'the manifest name carries the UTC time')
